@@ -326,6 +326,18 @@ func (w *world17) step(op Op17, probe func(string)) (f *fail17, skipped bool) {
 			}
 			img = g
 		case 3:
+			if op.V&16 != 0 {
+				// 16-bit gray: value v*257 is exactly luminance v
+				g := image.NewGray16(image.Rect(0, 0, op.W, op.H))
+				for y := 0; y < op.H; y++ {
+					for x := 0; x < op.W; x++ {
+						g.SetGray16(x, y, color.Gray16{uint16(px[y][x]) * 257})
+					}
+				}
+				probe("probe.gray16_image")
+				img = g
+				break
+			}
 			pal := make(color.Palette, 256)
 			for i := range pal {
 				pal[i] = color.Gray{byte(i)}
